@@ -223,6 +223,71 @@ func c05Run(c *Ctx) {
 		c.Bound(k, v)
 	}
 	c05Long(c)
+	c05AllIDs(c)
+}
+
+// c05AllIDs: the token alphabet holds one representative per kind of id; here every listed id
+// appears once in each position where its kind matters (alone, with each documented suffix, with
+// '+', in tight parentheses, before and after WITH), judged by R-gram.
+func c05AllIDs(c *Ctx) {
+	t := T()
+	var idx int64
+	try := func(texts ...string) {
+		idx++
+		if !c.Mine(idx) {
+			return
+		}
+		seq := toks(texts)
+		for _, rn := range []string{"loose", "tight"} {
+			text := renderBy(rn, seq)
+			if !c.FirstTime(text) || !c.Begin(text) {
+				continue
+			}
+			msg, out := c05Check(seq, text)
+			c.Inc("states")
+			c.Inc("transitions")
+			c.Inc("evaluations")
+			c.Inc("all_ids_cases")
+			c.Outcome("ids:" + out)
+			if out == "valid" {
+				c.Inc("nontrivial")
+				c.Inc("traces")
+			} else if out == "invalid" {
+				c.Inc("traces")
+			}
+			if msg != "" {
+				dir := "rejects-valid"
+				if strings.Contains(msg, "accepts") {
+					dir = "accepts-invalid"
+				}
+				c.Report(Violation{Kind: "c05.seq", Class: "ids:" + dir, Key: text, Msg: msg, Size: len(text), Case: mustJSON(c05Case{Tokens: tokTexts(seq), Render: rn, Text: text})})
+			}
+		}
+	}
+	for _, id := range t.AllLicenseIDs() {
+		if strings.HasSuffix(id, "+") {
+			try(id)
+			continue
+		}
+		try(id)
+		try(id + "-only")
+		try(id + "-or-later")
+		try(id, "+")
+		try(id+"-or-later", "+")
+		try("(", id+"-only", ")", "AND", "(", id+"-or-later", ")")
+		try(id, "+", "WITH", "Bison-exception-2.2")
+		try(id+"-only", "WITH", "Bison-exception-2.2")
+		try("MIT", "WITH", id)
+	}
+	for _, e := range t.Exceptions {
+		try("MIT", "WITH", e)
+		try("Apache-2.0", "+", "WITH", e)
+		try("(", "MIT", "WITH", e, ")", "OR", "ISC")
+		try(e)
+		try(e, "WITH", e)
+		try("MIT", "AND", e)
+	}
+	c.Bound("all_ids", map[string]any{"license_ids": len(t.AllLicenseIDs()), "exception_ids": len(t.Exceptions), "forms_per_license": 9, "forms_per_exception": 6})
 }
 
 // c05LongFamilies: size-parameterised valid sentences (as token lists). The short-sequence sweep
